@@ -2,7 +2,7 @@
    [supdate] is Settings.update (one __setitem__ per pair), [sacknowledge] is Settings.acknowledge,
    [settled s]: no value is waiting for an acknowledgement.  Validation is settings._validate_setting (C12). *)
 From H2 Require Import Base.Prelude Base.PyDict Model.SettingsV Model.Settings Model.Types Model.StreamFSM Model.ConnState Model.Connection
-  Proofs.C11Proofs.
+  Proofs.C11Proofs Proofs.C11Fifo.
 
 (* __setitem__: a valid value is queued behind the value in force; an invalid one changes nothing *)
 Theorem C11_setitem :
@@ -45,6 +45,35 @@ Proof.
   - injection H as <- _. reflexivity.
 Qed.
 
+(* Any number of SETTINGS frames in flight on ONE identifier k (queue_sends k vs: one update_settings({k: v}) per
+   element of vs — supdate [(k, v)] is one ssetitem —, values may repeat; acks n: n acknowledgements): no pending
+   value is in force before its acknowledgement, the (j+1)-th acknowledgement puts exactly the (j+1)-th value in force,
+   and after the last one the identifier is settled on the last value.  No bound on the number of frames. *)
+Theorem C11_pending_values_are_not_in_force :
+  forall k vs s o, dget k s = Some [o] -> Forall (fun v => validate_setting k v = 0) vs ->
+    sget k (queue_sends k vs s) = sget k s.
+Proof. exact pending_values_are_not_in_force. Qed.
+
+Theorem C11_same_identifier_acknowledged_in_order :
+  forall k vs s o j v, dget k s = Some [o] -> Forall (fun v => validate_setting k v = 0) vs ->
+    nth_error vs j = Some v ->
+    sget k (acks (S j) (queue_sends k vs s)) = Some v.
+Proof. exact same_identifier_fifo. Qed.
+
+Theorem C11_same_identifier_settles_on_the_last_value :
+  forall k vs s o v, dget k s = Some [o] -> Forall (fun v => validate_setting k v = 0) vs ->
+    last (map Some vs) None = Some v ->
+    dget k (acks (length vs) (queue_sends k vs s)) = Some [Some v].
+Proof. exact same_identifier_settles. Qed.
+
+(* non-vacuity: MAX_FRAME_SIZE 65536, 65536, 16384 in flight on fresh settings (a repeated value) *)
+Example C11_ex_fifo :
+  let s := settings_defaults true in
+  dget 5 s = Some [Some 16384] /\ Forall (fun v => validate_setting 5 v = 0) [65536; 65536; 16384] /\
+  map (fun n => sget 5 (acks n (queue_sends 5 [65536; 65536; 16384] s))) [0; 1; 2; 3]%nat =
+  [Some 16384; Some 65536; Some 65536; Some 16384].
+Proof. cbv zeta. split; [vm_compute; reflexivity|]. split; [repeat constructor | vm_compute; reflexivity]. Qed.
+
 Example C11_ex : lookup 4 [(4, 1000); (3, 5)] = Some 1000 /\ NoDup (map fst [(4, 1000); (3, 5)]).
 Proof. split; [reflexivity|]. repeat constructor; cbn; intros H; intuition discriminate. Qed.
 
@@ -52,3 +81,6 @@ Print Assumptions C11_setitem.
 Print Assumptions C11_one_frame_is_applied_by_one_acknowledgement.
 Print Assumptions C11_fresh_settings_are_settled.
 Print Assumptions C11_failing_update_settings_emits_nothing.
+Print Assumptions C11_pending_values_are_not_in_force.
+Print Assumptions C11_same_identifier_acknowledged_in_order.
+Print Assumptions C11_same_identifier_settles_on_the_last_value.
